@@ -144,6 +144,15 @@ def compare(ctx, fam, reg, script, status, cur, expansions, nrefs, order=None, e
             if got != base:
                 bad('interface', 'raises-' + got[1] if isinstance(got, tuple) else 'wrong-script',
                     'ContractInterface.from_micheline(script, context).to_micheline() gave %s\nfrom the expansion: %s' % (got, base))
+    if ok and nrefs > 0 and status == 'done':
+        # the registry is emptied (reset): every hash is unknown again, also the ones expanded a moment ago
+        ec.reset()
+        try:
+            after = ('ok', ec.resolve_global_constants(copy.deepcopy(src)))
+        except Exception as e:   # noqa
+            after = ('raised', type(e).__name__)
+        if after[0] == 'ok' or ec.global_constants:
+            bad('resolve', 'expands-after-reset', 'after reset() (registry %s) resolve of the expression returned %s instead of failing on the unknown hash' % (sorted(ec.global_constants), after[1:]))
     return ok
 
 
